@@ -81,4 +81,15 @@ theorem norm_zero {ε : K} {sq : K → K} (v : List K) (h : ∀ x ∈ v, x = 0) 
   obtain ⟨y, hy, rfl⟩ := List.mem_map.mp hx
   rw [h y hy, zero_mul]
 
+theorem eq_of_mem_zip_self {α : Type} {b c : α} : ∀ {l : List α}, (b, c) ∈ List.zip l l → b = c := by
+  intro l
+  induction l with
+  | nil => intro h; simp at h
+  | cons z l ih =>
+    intro h
+    simp only [List.zip_cons_cons, List.mem_cons, Prod.mk.injEq] at h
+    rcases h with ⟨rfl, rfl⟩ | h
+    · rfl
+    · exact ih h
+
 end TfelVerif.C49
